@@ -11,7 +11,9 @@ pub const PROCS: [&str; 22] = [
 ];
 
 fn atom(ch: &mut Chooser, vectors: bool) -> Datum {
-    match ch.below(if vectors { 12 } else { 11 }) {
+    match ch.below(if vectors { 13 } else { 12 }) {
+        // inexact reals with integral and fractional values next to the exact integers of the same value
+        11 => Datum::Real(ch.pick_s(&["2.0", "0.0", "-1.0", "3.0", "0.5", "2.5", "1.0"]).to_string()),
         0 | 1 | 2 => Datum::Int(ch.range(-5, 9) as i32),
         3 => {
             let b = *ch.pick(&[2, 3, 5, 7]);
